@@ -28,6 +28,7 @@ const (
 	gitconfigFile   = ".gitconfig"
 	systemFile      = "/etc/gitconfig"
 	infoExcludeFile = gitDir + "/info/exclude"
+	utf8BOM         = "\xef\xbb\xbf"
 )
 
 // readIgnoreFile reads a specific git ignore file.
@@ -39,8 +40,14 @@ func readIgnoreFile(fs billy.Filesystem, path []string, ignoreFile string) (ps [
 		defer func() { _ = f.Close() }()
 
 		scanner := bufio.NewScanner(f)
+		first := true
 		for scanner.Scan() {
 			s := scanner.Text()
+			if first {
+				// canonical Git skips a UTF-8 byte order mark (skip_utf8_bom in dir.c)
+				s = strings.TrimPrefix(s, utf8BOM)
+				first = false
+			}
 			if !strings.HasPrefix(s, commentPrefix) && len(strings.TrimSpace(s)) > 0 {
 				ps = append(ps, ParsePattern(s, path))
 			}
